@@ -423,6 +423,13 @@ impl TimeZone {
         crate::tz::db().get(time_zone_name)
     }
 
+    /// Verification hook: `(pointer tag, payload address, strong count)`.
+    #[cfg(all(jiff_verif, feature = "alloc"))]
+    #[doc(hidden)]
+    pub fn __verif_repr(&self) -> (usize, usize, Option<usize>) {
+        self.repr.verif_info()
+    }
+
     /// Returns a time zone with a fixed offset.
     ///
     /// A fixed offset will never have any transitions and won't follow any
@@ -2275,6 +2282,41 @@ mod repr {
                 },
                 ARC_POSIX(posix) => write!(f, "Posix({posix})"),
             }
+        }
+    }
+
+    #[cfg(all(jiff_verif, feature = "alloc"))]
+    impl Repr {
+        /// Verification hook (read-only): the pointer tag, the address with
+        /// the tag bits removed, and for reference counted representations
+        /// the current strong count.
+        pub(super) fn verif_info(&self) -> (usize, usize, Option<usize>) {
+            #[allow(unstable_name_collisions)]
+            let addr = self.ptr.addr() & !Repr::BITS;
+            let ptr = self.ptr.map_addr(|addr| addr & !Repr::BITS);
+            let count = match self.tag() {
+                Repr::ARC_TZIF => {
+                    // SAFETY: same as in `Clone for Repr`. The temporary
+                    // `Arc` is forgotten again via `into_raw`, so the count
+                    // is left untouched.
+                    let arc =
+                        unsafe { Arc::from_raw(ptr.cast::<TzifOwned>()) };
+                    let n = Arc::strong_count(&arc);
+                    let _ = Arc::into_raw(arc);
+                    Some(n)
+                }
+                Repr::ARC_POSIX => {
+                    // SAFETY: same as above.
+                    let arc = unsafe {
+                        Arc::from_raw(ptr.cast::<PosixTimeZoneOwned>())
+                    };
+                    let n = Arc::strong_count(&arc);
+                    let _ = Arc::into_raw(arc);
+                    Some(n)
+                }
+                _ => None,
+            };
+            (self.tag(), addr, count)
         }
     }
 
